@@ -270,6 +270,54 @@ Proof.
   destruct Hw as [<-|Hw]; [right; simpl; auto | left; apply in_rev in Hw; auto].
 Qed.
 
+(* the range entry of a block whose column was consolidated from numbers and numeric strings covers every value
+   the readers return: the numbers that arrived as numbers and those parsed out of strings at the flush *)
+Lemma stored_values_in : forall cs vs svs v,
+  stored_values cs = Some vs -> str_vals cs = Some svs -> In v vs -> In v (natives cs) \/ In v svs.
+Proof.
+  induction cs as [|c cs IH]; simpl; intros vs svs v SV ST Hv.
+  - inversion SV; subst. inversion Hv.
+  - destruct c as [x|str|].
+    + destruct (stored_values cs) as [vs'|] eqn:E; simpl in SV; inversion SV; subst.
+      destruct Hv as [<-|Hv]; [left; left; auto|].
+      destruct (IH vs' svs v eq_refl ST Hv); auto. left. right. auto.
+    + destruct (str_num str) as [x|]; [|discriminate].
+      destruct (stored_values cs) as [vs'|] eqn:E; [|discriminate].
+      destruct (str_vals cs) as [svs'|] eqn:E2; [|discriminate].
+      inversion SV; inversion ST; subst.
+      destruct Hv as [<-|Hv]; [right; left; auto|].
+      destruct (IH vs' svs' v eq_refl eq_refl Hv); auto. right. right. auto.
+    + eauto.
+Qed.
+
+Theorem range_index_covers_consolidated : forall cs vs svs,
+  stored_values cs = Some vs -> str_vals cs = Some svs ->
+  forallb wf_num (natives cs ++ svs) = true -> vs <> [] ->
+  exists r, block_index cs = Some r /\ forall v, In v vs -> covers r v.
+Proof.
+  intros cs vs svs SV ST W NE. unfold block_index. rewrite ST. unfold range_of.
+  rewrite <- fold_left_app.
+  assert (NE2 : natives cs ++ svs <> []).
+  { destruct vs as [|v vs]; [congruence|].
+    destruct (stored_values_in cs (v :: vs) svs v SV ST (or_introl eq_refl)) as [H|H];
+      intro E; apply app_eq_nil in E; destruct E as [E1 E2]; [rewrite E1 in H | rewrite E2 in H]; inversion H. }
+  destruct (range_of_covers _ W NE2) as [r [R C]]. exists r. split; [exact R|].
+  intros v Hv. apply C. apply in_or_app. eapply stored_values_in; eauto.
+Qed.
+
+(* an entry built from the native numbers only does not do: {1,2,3,"50"}, val > 10 *)
+Theorem native_only_index_refuted :
+  exists cs vs r v, stored_values cs = Some vs /\ range_of (natives cs) = Some r /\ In v vs
+    /\ cmp_spec Gt (qval v) (inject_Z 10) = true
+    /\ check_range r Gt (LInt false 10) = false
+    /\ (exists r', block_index cs = Some r' /\ check_range r' Gt (LInt false 10) = true).
+Proof.
+  exists [RNum (VI 1); RNum (VI 2); RNum (VI 3); RStr [53; 48]%N], [VI 1; VI 2; VI 3; VI 50].
+  eexists. exists (VI 50). split; [reflexivity|]. split; [reflexivity|].
+  split; [simpl; auto|]. split; [vm_compute; reflexivity|]. split; [vm_compute; reflexivity|].
+  eexists. split; [reflexivity | vm_compute; reflexivity].
+Qed.
+
 Lemma range_of_nil : forall vs, range_of vs = None -> vs = [].
 Proof.
   intros [|v vs] H; auto. unfold range_of in H. simpl in H.
@@ -606,12 +654,12 @@ Section Bloom.
       forallb (fun c => negb (c =? 32)%N) (fst k) = true /\ fst k <> [] /\ (ci = true -> lower (fst k) = fst k).
 
   Theorem bloom_prune_sound : forall vals v q ci,
-    In v vals -> keys_ok ci (tq_keys q) -> tq_negate q = false ->
+    In v vals -> keys_ok ci (tq_keys q) ->
     rec_accepts ci (tq_op q) (tq_keys q) v = true ->
     text_pass_rotated (btest (bloom_of vals)) q = true
     /\ text_pass_unrotated (btest (bloom_of vals)) q = true.
   Proof.
-    intros vals v q ci Hv KO NG R.
+    intros vals v q ci Hv KO R.
     assert (P : forall k, In k (tq_keys q) -> is_subword v (fst k) ci = true ->
                 probe (btest (bloom_of vals)) k = true).
     { intros k Hk S. destruct (KO k Hk) as [A [Bq C]]. unfold probe.
@@ -627,13 +675,14 @@ Section Bloom.
         destruct (tq_keys q) eqn:K; [contradiction|]. rewrite <- K in *.
         apply existsb_exists. exists k. split; auto. }
     destruct (ALL _ R) as [A1 A2].
-    unfold text_pass_rotated, text_pass_unrotated. rewrite NG.
-    destruct (tq_wild_value q); simpl; auto. destruct (tq_wild_col q); auto.
+    unfold text_pass_rotated, text_pass_unrotated.
+    destruct (tq_wild_value q); destruct (tq_negate q); simpl; auto. destruct (tq_wild_col q); auto.
   Qed.
 
-  (* NOT on rotated segments bypasses the bloom whatever the filter holds *)
-  Theorem negate_bypass_rotated : forall test q, tq_negate q = true -> text_pass_rotated test q = true.
-  Proof. intros test q H. unfold text_pass_rotated. rewrite H. rewrite orb_true_r. auto. Qed.
+  (* NOT bypasses the bloom whatever the filter holds, on rotated and on open segments *)
+  Theorem negate_bypass : forall test q, tq_negate q = true ->
+    text_pass_rotated test q = true /\ text_pass_unrotated test q = true.
+  Proof. intros test q H. unfold text_pass_rotated, text_pass_unrotated. rewrite H. rewrite !orb_true_r. auto. Qed.
 
   Theorem wildcard_bypass : forall test q, tq_wild_value q = true ->
     text_pass_rotated test q = true /\ text_pass_unrotated test q = true.
@@ -664,12 +713,12 @@ Proof.
   split; vm_compute; reflexivity.
 Qed.
 
-(* (i) unrotated segments have no NOT bypass: a block without the word is dropped although every
-   record of it satisfies NOT word; the rotated check keeps it *)
-Theorem unrotated_negate_refuted :
+(* PRE-FIX documentation: the open-segment check had no NOT bypass: a block without the word was dropped
+   although every record of it satisfies NOT word; the rotated check kept it *)
+Theorem prefix_unrotated_negate_refuted :
   exists vals q, tq_negate q = true
     /\ (forall v, In v vals -> rec_accepts true (tq_op q) (tq_keys q) v = false)
-    /\ text_pass_unrotated (set_test (bloom_of (list bytes) [] set_add vals)) q = false
+    /\ text_pass_unrotated_prefix (set_test (bloom_of (list bytes) [] set_add vals)) q = false
     /\ text_pass_rotated (set_test (bloom_of (list bytes) [] set_add vals)) q = true.
 Proof.
   (* block {w:"beta"}, query NOT alpha *)
@@ -677,3 +726,8 @@ Proof.
   split; [reflexivity|]. split; [|split; vm_compute; reflexivity].
   intros v [<-|[]]. vm_compute. reflexivity.
 Qed.
+
+(* without NOT the pre-fix check is the current one *)
+Theorem prefix_unrotated_guarded : forall test q, tq_negate q = false ->
+  text_pass_unrotated_prefix test q = text_pass_unrotated test q.
+Proof. intros test q H. unfold text_pass_unrotated_prefix, text_pass_unrotated. rewrite H, orb_false_r. auto. Qed.
